@@ -9,6 +9,7 @@ export EXTRA_STR="$(declare -p EXTRA)"
 one() {
   eval "$EXTRA_STR"
   sid=$1; prop=${sid%-*}; d=seeded/$sid
+  [ -f "$d/RETIRED" ] && { echo "$sid retired"; return; }
   out="["
   for id in $prop ${EXTRA[$sid]:-}; do
     s=$(date +%s)
